@@ -12,8 +12,11 @@
   (2) progress of the internal steps (`tagDone_clears`): the completion of a tagging job during
       which nothing was invalidated leaves its tag fully decided, i.e. the number of pending tags
       strictly drops; completions re-invalidate only what arrived during the job.
-  A complete termination measure over all four job kinds (DESIGN §5 C09 `settles`) is NOT proved;
-  the scenario harness checks settling under generated schedules (bounded), see level note.
+  (3) termination: Pk/Props/C09Settles.lean proves `settles` — the relation "deliver the completion of a
+      job in flight (admissible payload) in a reachable state" is well-founded, i.e. every run of job
+      completions without further API calls is finite, for every order of completions (a 7-component
+      lexicographic measure) — and `idle_is_quiescent`: where it ends, nothing is queued, every tag is
+      decided and no stream waits for a converter (tag graph acyclic: `acyclic_step`).
 -/
 import Pk.Model.Manager
 import Pk.Proofs.MgrSettle
